@@ -38,13 +38,19 @@ def classify_tridonic(data):
         return ("none",)
     if rtype == 0x77 and data[5] == 3:
         return ("bferr",)
+    if rtype == 0x77:
+        return ("status",)          # a bus status report: not a frame, not an answer
     return None
 
 
-def reference(reports, dev_inst_map=None, end_us=None):
+def reference(reports, dev_inst_map=None, end_us=None, status_restarts=False):
     """reports: [(t_us, classified)].  Returns (emissions, ambiguous) where
     ambiguous is True if some gap fell inside the band the oracle refuses to
-    judge (150..250 ms while something was pending)."""
+    judge (150..250 ms while something was pending).
+
+    The property speaks of the watcher's timeout without saying whether a report that
+    is neither frame nor answer (a bus status report) counts as activity: both readings
+    are offered (status_restarts), the caller accepts either."""
     out = []
     pending = None
     dt = 0
@@ -102,6 +108,12 @@ def reference(reports, dev_inst_map=None, end_us=None):
                         else dali.frame.BackwardFrame(item[1])
                     emit(t, pending.cmd, pending.cmd.response(b), False, "query-answered")
                 pending = None
+        elif kind == "status":
+            stats["status-report"] = stats.get("status-report", 0) + 1
+            if pending is not None:
+                stats["status-report-while-pending"] = stats.get("status-report-while-pending", 0) + 1
+                if status_restarts:
+                    pending.t = t
         elif kind == "none":
             if pending is not None:
                 if pending.cmd.sendtwice:
